@@ -5,5 +5,6 @@ DIR="$(cd "$(dirname "${BASH_SOURCE[0]}")" && pwd)"
 cd "$DIR/engine/mirdump"
 CARGO_NET_OFFLINE=true cargo +nightly build --release --offline
 test -x target/release/mirdump
+python3 "$DIR/tools/gen_std_panics.py"
 python3 -c "import sys; sys.path.insert(0, '$DIR/engine'); import mhsa.runner" 
 echo "setup ok"
